@@ -200,6 +200,8 @@ op_schedule(const Plan& p, const Op& op)
   recon->set_randomise_subset_order(randomise);
   recon->set_save_interval(num_subiters);
   recon->set_disable_output(true);
+  // OSSPS writes its precomputed denominator during set_up even with output disabled: keep that file in the scratch directory
+  recon->set_output_filename_prefix(sim::scratch_dir() + "/c06");
   const long t_reads0 = sim::io::time_reads();
   if (recon->set_up(target) != Succeeded::yes)
     sim::fail("schedule:set_up_failed", "set_up refused a legal configuration (views=%d, subsets=%d)", views, n);
